@@ -363,7 +363,7 @@ func runR(t *testing.T, ch *vs.Choices, prop, tier string, render bool) *vs.RunO
 						fmt.Sscanf(ev.Line[strings.Index(ev.Line, "]: R|v")+3:], "R|v%d", &ran)
 					}
 				}
-				trace = append(trace, fmt.Sprintf("   -> server=%s/v%d exit=%d crashed=%v prompted=%d ran=v%d err=%v", srv.state, srv.version, code, crashed, prompted, ran, err))
+				trace = append(trace, vs.StripDir(fmt.Sprintf("   -> server=%s/v%d exit=%d crashed=%v prompted=%d ran=v%d err=%v", srv.state, srv.version, code, crashed, prompted, ran, err), dir))
 				if crashed {
 					out.Hit("fault:crash@cachewrite")
 				}
@@ -421,7 +421,7 @@ func runR(t *testing.T, ch *vs.Choices, prop, tier string, render bool) *vs.RunO
 								how += ",download"
 							}
 						}
-						out.Violate("C20", "cache_not_used|"+how, "%s: an approved copy (v%d) is cached and the network is unavailable / --offline, but exit=%d ran=v%d (%v)", desc, cacheVersion, code, ran, err)
+						out.Violate("C20", "cache_not_used|"+how, "%s: an approved copy (v%d) is cached and the network is unavailable / --offline, but exit=%d ran=v%d (%s)", desc, cacheVersion, code, ran, vs.StripDir(fmt.Sprint(err), dir))
 					} else {
 						out.Hit("served_from_cache_while_unavailable")
 					}
